@@ -218,12 +218,16 @@ def rule_r3(ctx) -> List[R.Inst]:
                                     "the underlying lists keep their old values",
                                     construct=unparse(writes[0])[:160]))
     # generated stack setters route to __setitem__
-    q = "reamber.base.Property.stack_props.<locals>.gen_props.<locals>.setter"
+    q = M.gen_accessor("stack_props", "setter") or "reamber.base.Property.stack_props.<locals>.gen_props.<locals>.setter"
     fn = M.fn(q)
     file, line = fn_loc(M, q)
     body = [s for s in fn.node.body if not (isinstance(s, ast.Expr) and isinstance(s.value, ast.Constant))]
-    if len(body) == 1 and isinstance(body[0], ast.Assign) and unparse(body[0].targets[0]) == "self[k_]" and \
-            unparse(body[0].value) == "val":
+    ps_ = params_of(fn.node)
+    # self[<the property's name>] = <the value>: the name is a defaulted parameter (k_=k) or a variable of the enclosing factory
+    t0 = body[0].targets[0] if len(body) == 1 and isinstance(body[0], ast.Assign) else None
+    name_ok = isinstance(t0, ast.Subscript) and unparse(t0.value) == (ps_[0] if ps_ else "self") and isinstance(t0.slice, ast.Name) and \
+        (t0.slice.id in ps_[2:] or (fn.outer_fn is not None and t0.slice.id in params_of(M.fn(fn.outer_fn).node)))
+    if name_ok and len(ps_) >= 2 and unparse(body[0].value) == ps_[1]:
         insts.append(R.ok("C12.R3", "stack_props.setter", file, line, idiom="self[k_] = val -> Stacker.__setitem__"))
     else:
         insts.append(R.viol("C12.R3", "stack_props.setter", file, line,
